@@ -215,6 +215,11 @@ func NewStore(ctx context.Context, cfg StoreConfig) (*Store, error) {
 			s.logf("WARNING: cache is not valid; discarding it")
 			clear(s.active.m) // reset
 		}
+		if s.active.m == nil {
+			// A cache holding JSON null decodes without error but leaves the map
+			// nil; treat it as empty rather than panicking on the first insert.
+			s.active.m = make(map[string]*cachedSecret)
+		}
 	}
 
 	// If there are any configured secrets that weren't cached, stub them in.
